@@ -607,8 +607,8 @@ type wireAutomaton struct {
 type leafTable map[string][]string
 
 type codecSide struct {
-	pkgPath string // package declaring Encoder/Decoder
-	leaves  leafTable
+	pkgPath    string // package declaring Encoder/Decoder
+	leaves     leafTable
 	shapeFacts bool // conditions keyed by canonical shape (receiver is read-only) instead of by SSA identity
 }
 
@@ -1370,7 +1370,6 @@ func (cs codecSide) countSource(f *ssa.Function, bound ssa.Value, decode bool) s
 	})
 	return res
 }
-
 
 // rangedMap: the local slice is filled by appending keys obtained from ranging a map: that map.
 func rangedMap(root ssa.Value) ssa.Value {
